@@ -205,7 +205,7 @@ fn history(cfg: &Cfg, rep: &mut Report, permissioned: bool, h: u64, steps: usize
 
 pub fn run(cfg: &Cfg, rep: &mut Report) {
     rep.rule = "Seeded histories on both fee-forwarder examples over 4 Base fee tokens and a counting target: forward with fee/max from {<=0,1,max-1,max,max+1}, expiration on {cur-1,cur,cur+1,cur+50,max_live,max_live+1}, pre-existing allowance below/at/above max, failing target, user = forwarder, user = relayer, relayer with/without the executor role and with/without its authorization; the user's authorization is the exact tuple (3/5) or differs in exactly one field (token, max+-1, expiration, target, function, arguments) or is absent; allow-list enable/disable histories by manager and stranger. Distinct case = (forwarder, fee class, expiration class, allowance class, tuple variant, relayer signs, target ok, outcome).".into();
-    let nh = cfg.pick(30u64, 200);
+    let nh = cfg.pick(30u64, 800);
     let steps = cfg.pick(200usize, 400);
     for k in 0..nh {
         if cfg.runs(k) {
